@@ -132,7 +132,7 @@ def render_v2_block(block, ind, c, out):
             out.append(f"{pad}if $c")
             render_v2_block(s[1][0], ind + 1, c, out)
             if len(s[1]) > 1:
-                out.append(f"{pad}else")
+                out.append(pad + _else_kw(s[1][1]))
                 render_v2_block(s[1][1], ind + 1, c, out)
         elif k == "when":
             _, ncase, bodies, haselse = s
@@ -144,10 +144,16 @@ def render_v2_block(block, ind, c, out):
                 out.append(f"{pad}{'when' if i == 0 else 'or when'} {spec}")
                 render_v2_block(bodies[i], ind + 1, c, out)
             if haselse:
-                out.append(f"{pad}else")
+                out.append(pad + _else_kw(bodies[-1]))
                 render_v2_block(bodies[-1], ind + 1, c, out)
         else:
             raise ValueError(s)
+
+
+def _else_kw(block):
+    # the 2.x lexer reads "else<newline><indent>if" as the `else if` token (a layout quirk that
+    # belongs to C13); `else:` keeps such programs inside the accepted language
+    return "else:" if block[0][0] == "if" else "else"
 
 
 def render_v2(block):
